@@ -1,5 +1,113 @@
-(* STUB: Impl model of pptt.rs -- to be written *)
-From Coq Require Import NArith List.
-From ACPI Require Import Lib.Bytes Lib.Sx Lib.Machine Impl.Checksum Impl.Table Impl.Fields Impl.Run.
+(* Impl model of pptt.rs (case vocabulary: see Spec/PpttS.v) *)
+From Coq Require Import NArith List Bool.
+From ACPI Require Import Lib.Bytes Lib.Sx Lib.Machine Impl.Checksum Impl.Table Impl.Fields Impl.Run Impl.Madt.
 Import ListNotations.
-Definition pptt_case (md : mode) (c : sx) : list ev := [EvPanic].
+Open Scope N_scope.
+
+(* ---- ProcessorNode { pub flags, pub parent, pub acpi_processor_id, resources: Vec<CacheHandle> } ---- *)
+Record pnode := {
+  pn_flags : N; pn_parent : N; pn_uid : N;
+  pn_rres : list N            (* resources, most recently pushed first *)
+}.
+
+Definition pn_or (p : pnode) (bits : N) : pnode :=
+  {| pn_flags := N.lor (pn_flags p) bits; pn_parent := pn_parent p; pn_uid := pn_uid p; pn_rres := pn_rres p |}.
+
+(* builders (consume self) and direct assignments to the three pub fields *)
+Definition pnode_builder (s : tbl) (p : pnode) (o : sx) : option pnode :=
+  match o with
+  | SL [SA 1] => Some (pn_or p 1)            (* physical  *)
+  | SL [SA 2] => Some (pn_or p 2)            (* valid     *)
+  | SL [SA 3] => Some (pn_or p 4)            (* thread    *)
+  | SL [SA 4] => Some (pn_or p 8)            (* leaf      *)
+  | SL [SA 5] => Some (pn_or p 16)           (* identical *)
+  | SL [SA 6; h] =>                          (* add_cache(&handle): resources.push(c) *)
+      do c <- handle_ref s h;
+      Some {| pn_flags := pn_flags p; pn_parent := pn_parent p; pn_uid := pn_uid p; pn_rres := c :: pn_rres p |}
+  | SL [SA 7; SA v] => Some {| pn_flags := v; pn_parent := pn_parent p; pn_uid := pn_uid p; pn_rres := pn_rres p |}
+  | SL [SA 8; h] =>                          (* node.parent = value *)
+      do v <- handle_ref s h;
+      Some {| pn_flags := pn_flags p; pn_parent := v; pn_uid := pn_uid p; pn_rres := pn_rres p |}
+  | SL [SA 9; SA v] => Some {| pn_flags := pn_flags p; pn_parent := pn_parent p; pn_uid := v; pn_rres := pn_rres p |}
+  | _ => None
+  end.
+
+Fixpoint pnode_builders (s : tbl) (p : pnode) (l : list sx) : option pnode :=
+  match l with
+  | [] => Some p
+  | o :: r => match pnode_builder s p o with Some p' => pnode_builders s p' r | None => None end
+  end.
+
+(* fn len(): 20 + resources.len() * 4 *)
+Definition pnode_len (p : pnode) : N := 20 + N.of_nat (length (pn_rres p)) * 4.
+
+Definition pp_dwords (l : list N) : list N := concat (map d4 l).
+
+(* to_aml_bytes: assert!(self.len() <= u8::MAX) first *)
+Definition pnode_bytes (p : pnode) : option (list N) :=
+  do _ <- assert (pnode_len p <=? 255);
+  Some (b1 0 ++ b1 (pnode_len p) ++ w2 0 ++ d4 (pn_flags p) ++ d4 (pn_parent p) ++ d4 (pn_uid p) ++
+        d4 (N.of_nat (length (pn_rres p))) ++ pp_dwords (frev (pn_rres p))).
+
+(* ---- CacheNodeBuilder -> CacheNode (packed struct)
+   indices: 0 type 1 length 2 reserved 3 flags 4 next_level 5 size 6 set_count 7 associativity 8 attributes 9 line_size 10 id *)
+Definition cache_default : flds := [F 1 1; F 1 28; F 2 0; F 4 0; F 4 0; F 4 0; F 4 0; F 1 0; F 1 0; F 2 0; F 4 0].
+
+Definition alloc_bits (e : N) : N := match e with 1 => 1 | 2 => 2 | _ => 0 end.     (* Read = 0, Write = 1<<0, Both = 1<<1 *)
+Definition ctype_bits (e : N) : N := match e with 1 => 4 | 2 => 8 | _ => 0 end.     (* Data = 0<<2, Instruction = 1<<2, Unified = 1<<3 *)
+Definition policy_bits (e : N) : N := match e with 1 => 16 | _ => 0 end.            (* Writeback = 0<<4, Writethrough = 1<<4 *)
+
+Definition cache_setter (s : tbl) (f : flds) (o : sx) : option flds :=
+  match o with
+  | SL [SA 1; SA v] => Some (f_or (fset f 5 v) 3 1)                     (* size *)
+  | SL [SA 2; SA v] => Some (f_or (fset f 6 v) 3 2)                     (* sets *)
+  | SL [SA 3; SA v] => Some (f_or (fset f 7 v) 3 4)                     (* associativity *)
+  | SL [SA 4; SA e] => Some (f_or (f_or f 8 (alloc_bits e)) 3 8)        (* allocation_type: attributes |= a *)
+  | SL [SA 5; SA e] => Some (f_or (f_or f 8 (ctype_bits e)) 3 16)       (* cache_type:      attributes |= c *)
+  | SL [SA 6; SA e] => Some (f_or (f_or f 8 (policy_bits e)) 3 32)      (* write_policy:    attributes |= w *)
+  | SL [SA 7; SA v] => Some (f_or (fset f 9 v) 3 64)                    (* line_size *)
+  | SL [SA 8; SA v] => Some (f_or (fset f 10 v) 3 128)                  (* id *)
+  | SL [SA 9; h] => do c <- handle_ref s h; Some (fset f 4 c)           (* next_level(&handle) *)
+  | _ => None
+  end.
+
+Fixpoint cache_setters (s : tbl) (f : flds) (l : list sx) : option flds :=
+  match l with
+  | [] => Some f
+  | o :: r => match cache_setter s f o with Some f' => cache_setters s f' r | None => None end
+  end.
+
+(* ---- table ---- *)
+Definition pptt_new (c : sx) : option tbl :=
+  match c with
+  | SL [o; t; r] =>
+      do h <- sx_hdr [80; 80; 84; 84] 1 o t r;          (* "PPTT" *)
+      Some (tbl_new KPptt h [])
+  | _ => None
+  end.
+
+(* ProcessorNode::new(parent, uid): parent () = None, (104 k) = Some(&handle); a bare number = new(None, uid) followed
+   by node.parent = number *)
+Definition pnode_new (s : tbl) (parent : sx) (uid : N) : option pnode :=
+  do p <- (match parent with SL [] => Some 0 | x => handle_ref s x end);
+  Some {| pn_flags := 0; pn_parent := p; pn_uid := uid; pn_rres := [] |}.
+
+(* add_processor: handle_offset += node.len() as u32; update_header(node.u8sum(), node.len() as u32)
+   add_cache:     handle_offset += 28;                update_header(node.u8sum(), 28) *)
+Definition pptt_addition (s : tbl) (o : sx) : option addition :=
+  match o with
+  | SL [SA 1; parent; SA uid; SL bs] =>
+      do p0 <- pnode_new s parent uid;
+      do p <- pnode_builders s p0 bs;
+      do b <- pnode_bytes p;
+      Some {| a_style := SumAdd; a_claimed := pnode_len p; a_bytes := b; a_returns := true; a_flag := false |}
+  | SL [SA 2; SL st] =>
+      do f <- cache_setters s cache_default st;
+      Some {| a_style := SumAdd; a_claimed := 28; a_bytes := ser_flds f; a_returns := true; a_flag := false |}
+  | _ => None
+  end.
+
+Definition pptt_step : mode -> tbl -> sx -> option (tbl * list ev) := add_step pptt_addition.
+
+Definition pptt_case (md : mode) (c : sx) : list ev :=
+  run_history (fun s => Some (tbl_image s)) (pptt_step md) pptt_new c.
